@@ -80,15 +80,29 @@ impl<K, V> Slot<K, V> {
     }
 }
 
+/// The slot array: inline, or - under `--cfg vcoll_boxmap` (builder build only) - one heap box per map, which
+/// hides the niches of K/V (e.g. the 128-bit tag of an `Option<u128>` inside an endpoint) from the layout of every
+/// type that contains a map: Kani 0.68 crashes (rvalue.rs:1009, `u64::try_from(niche_start)`) when an enum such as
+/// `Result<SessionBuilder<_>, GgrsError>` keeps its discriminant in a 128-bit niche.
+#[cfg(not(vcoll_boxmap))]
+type Slots<K, V> = [Slot<K, V>; CAP];
+#[cfg(vcoll_boxmap)]
+type Slots<K, V> = Box<[Slot<K, V>; CAP]>;
+
 #[derive(Clone)]
 pub struct HashMap<K, V> {
-    slots: [Slot<K, V>; CAP],
+    slots: Slots<K, V>,
     count: usize,
 }
 
 impl<K, V> Default for HashMap<K, V> {
+    #[cfg(not(vcoll_boxmap))]
     fn default() -> Self {
         Self { slots: [const { Slot::EMPTY }; CAP], count: 0 }
+    }
+    #[cfg(vcoll_boxmap)]
+    fn default() -> Self {
+        Self { slots: Box::new([const { Slot::EMPTY }; CAP]), count: 0 }
     }
 }
 
@@ -212,6 +226,17 @@ impl<K, V> Iterator for IntoIter<K, V> {
     }
 }
 
+impl<K, V> HashMap<K, V> {
+    #[cfg(not(vcoll_boxmap))]
+    fn slots_ref(&self) -> &[Slot<K, V>; CAP] {
+        &self.slots
+    }
+    #[cfg(vcoll_boxmap)]
+    fn slots_ref(&self) -> &[Slot<K, V>; CAP] {
+        &self.slots
+    }
+}
+
 impl<K: PartialEq, V> HashMap<K, V> {
     pub fn new() -> Self {
         Self::default()
@@ -323,7 +348,7 @@ impl<K: PartialEq, V> HashMap<K, V> {
     }
     #[cfg(not(ggrs_verif_permute))]
     pub fn iter(&self) -> Iter<'_, K, V> {
-        Iter { slots: &self.slots, i: 0 }
+        Iter { slots: &*self.slots_ref(), i: 0 }
     }
     #[cfg(not(ggrs_verif_permute))]
     pub fn values_mut(&mut self) -> ValuesMut<'_, K, V> {
@@ -413,7 +438,11 @@ impl<K: PartialEq, V> IntoIterator for HashMap<K, V> {
     type IntoIter = IntoIter<K, V>;
     fn into_iter(self) -> Self::IntoIter {
         let mut v: Vec<Slot<K, V>> = Vec::with_capacity(CAP);
-        for s in self.slots {
+        #[cfg(not(vcoll_boxmap))]
+        let arr = self.slots;
+        #[cfg(vcoll_boxmap)]
+        let arr = *self.slots;
+        for s in arr {
             v.push(s);
         }
         permute(&mut v);
